@@ -84,7 +84,7 @@ RULE = (
     "of (phase set or none, #ALT) per CHROM."
 )
 SCOPE = {
-    "quick": {"N1": 7, "N2": 7, "NR": 1900, "NV": 160, "PAIR_STEP": 5},
+    "quick": {"N1": 7, "N2": 7, "NR": 4500, "NV": 320, "PAIR_STEP": 4},
     "thorough": {"N1": 9, "N2": 8, "NR": 20000, "NV": 1600, "PAIR_STEP": 1},
 }
 FLOOR = {"quick": 8000, "thorough": 30000}
